@@ -154,6 +154,20 @@ fn idle_read(rt: &Runtime) -> IdleRead {
     }
 }
 
+/// a read of /dev/zero: completes inline at submission, its completion stays in the CQ until somebody reaps it
+fn zero_read(rt: &Runtime) -> IdleRead {
+    let file = std::fs::File::open("/dev/zero").expect("/dev/zero");
+    let wr = OwnedFd::from(std::fs::File::open("/dev/null").expect("/dev/null"));
+    let fd = compio_driver::SharedFd::new(file);
+    let sub = rt.submit(compio_driver::op::ReadAt::new(fd, 0, Vec::<u8>::with_capacity(8)));
+    IdleRead {
+        fut: Box::pin(async move {
+            let _ = sub.await;
+        }),
+        _wr: wr,
+    }
+}
+
 fn drv_of(s: &str) -> Option<DriverType> {
     match s {
         "iour" => Some(DriverType::IoUring),
@@ -215,10 +229,18 @@ fn build(drv: DriverType, q: usize, iv: usize) -> Result<Built, String> {
 }
 
 fn build_cap(drv: DriverType, q: usize, iv: usize, cap: u32) -> Result<Built, String> {
+    build_cap_cq(drv, q, iv, cap, 256)
+}
+
+/// `cq = 0`: the default completion queue (2 * capacity), which a few unreaped completions fill up
+fn build_cap_cq(drv: DriverType, q: usize, iv: usize, cap: u32, cq: u32) -> Result<Built, String> {
     let mut pb = ProactorBuilder::new();
     // a small SUBMISSION queue, but a completion queue that cannot overflow (a CQ of 2*cap entries overflows after a
     // few un-reaped NOTIFY completions, and when the kernel flushes its overflow list is not deterministic)
-    pb.driver_type(drv).capacity(cap).cqsize(256);
+    pb.driver_type(drv).capacity(cap);
+    if cq > 0 {
+        pb.cqsize(cq);
+    }
     let efd = if drv == DriverType::IoUring { Some(new_eventfd()) } else { None };
     if let Some(f) = &efd {
         pb.register_eventfd(f.as_raw_fd());
@@ -288,8 +310,8 @@ struct Det {
 }
 
 impl Det {
-    fn new(drv: DriverType, q: usize, iv: usize, n: usize, cap: u32) -> Result<Det, String> {
-        let b = build_cap(drv, q, iv, cap)?;
+    fn new(drv: DriverType, q: usize, iv: usize, n: usize, cap: u32, cq: u32) -> Result<Det, String> {
+        let b = build_cap_cq(drv, q, iv, cap, cq)?;
         let w = World::new(n + 1);
         for i in 0..n {
             let fut = Parked::new(i, w.clone());
@@ -350,6 +372,44 @@ fn det_op(d: &mut Det, line: &str, ex: &mut Exec) -> String {
             });
             d.pushes_since_wake += k;
             "ok".into()
+        }
+        ["pushz", k] => {
+            let Ok(k) = k.parse::<usize>() else { return "bad-op".into() };
+            let Det { b, reads, .. } = d;
+            b.rt.enter(|| {
+                let w = Waker::noop();
+                let mut cx = Context::from_waker(&w);
+                for _ in 0..k {
+                    let mut r = zero_read(&b.rt);
+                    let _ = r.fut.as_mut().poll(&mut cx);
+                    reads.push(r);
+                }
+            });
+            d.pushes_since_wake += k;
+            "ok".into()
+        }
+        ["pollw", ms] => {
+            // a blocking poll; 20 ms later another thread invokes the driver waker: the poll must end promptly
+            let Ok(ms) = ms.parse::<u64>() else { return "bad-op".into() };
+            let wk = d.main_waker.clone();
+            let th = std::thread::spawn(move || {
+                std::thread::sleep(Duration::from_millis(20));
+                wk.wake();
+            });
+            let t0 = Instant::now();
+            let r = catch(|| d.b.rt.poll_with(Some(Duration::from_millis(ms))));
+            let woken = t0.elapsed() < Duration::from_millis(ms * 3 / 4);
+            let _ = th.join();
+            if let Err(e) = r {
+                return format!("panic {e}");
+            }
+            if !woken {
+                ex.fail("C03:lost-wake", format!("deterministic program on {}: another thread invoked the driver waker 20 ms into a blocking poll_with({ms} ms), the poll slept until its timeout (the notifier is not armed?)", d.drv_name));
+            }
+            // the wake may have arrived after the poll returned (stale readiness): leave a clean, known state
+            d.owed_flag = false;
+            d.legit = false;
+            if woken { "poll=woken".into() } else { "poll=timeout".into() }
         }
         ["pollt", ms] => {
             let Ok(ms) = ms.parse::<u64>() else { return "bad-op".into() };
@@ -870,13 +930,18 @@ fn exec(case: &Case) -> Exec {
     for line in &case.lines {
         let toks: Vec<&str> = line.split_whitespace().collect();
         let out = match toks.first().copied() {
-            Some("new") if toks.len() == 5 || toks.len() == 6 => {
+            Some("new") if (5..=7).contains(&toks.len()) => {
                 if let Some(d) = det.take() {
                     d.finish();
                 }
-                let cap = if toks.len() == 6 { kv(toks[5], "cap") } else { Some(16) };
+                let cap = if toks.len() >= 6 { kv(toks[5], "cap") } else { Some(16) };
+                let cq = if toks.len() == 7 { kv(toks[6], "cq") } else { Some(256) };
+                let Some(cq) = cq else {
+                    ex.out.push("bad-op".to_string());
+                    continue;
+                };
                 match (drv_of(toks[1]), kv(toks[2], "q"), kv(toks[3], "iv"), kv(toks[4], "tasks"), cap) {
-                    (Some(drv), Some(q), Some(iv), Some(n), Some(cap)) if q >= 1 && cap >= 1 => match Det::new(drv, q, iv, n, cap as u32) {
+                    (Some(drv), Some(q), Some(iv), Some(n), Some(cap)) if q >= 1 && cap >= 1 => match Det::new(drv, q, iv, n, cap as u32, cq as u32) {
                         Ok(d) => {
                             det = Some(d);
                             ex.tag(format!("det:{}", toks[1]));
@@ -1044,6 +1109,38 @@ fn generate(tier: &str, rng: &mut Rng) -> Vec<Case> {
             lines.push("flush".into());
         }
         cases.push(Case { name: format!("sq-{i}"), lines });
+    }
+    // the kernel terminates the notifier's multishot poll (final completion without MORE) when a wake arrives while the
+    // completion queue is full of unreaped completions (seed C03-3b): small ring with the DEFAULT CQ (2 * capacity),
+    // rounds of "push `capacity` reads of /dev/zero, flush" until the CQ is full, a remote wake, reap everything, then k
+    // blocking polls each of which must be ended by a remote wake. Only operations whose output does not depend on
+    // how many completions the kernel merged (no fd / ring).
+    let n_cqf = if thorough { 60 } else { 10 };
+    for i in 0..n_cqf {
+        let cap = *rng.pick(&[1usize, 2, 2, 4]);
+        let mut lines = vec![format!("new iour q=64 iv=61 tasks=0 cap={cap} cq=0")];
+        lines.push("poll0".into());
+        if rng.chance(1, 2) {
+            lines.push("pollw 2000".into());
+            lines.push("poll0".into());
+        }
+        // fill the CQ (2 * cap entries), sometimes more than full
+        let fills = 2 + rng.below(2) as usize;
+        for _ in 0..fills {
+            lines.push(format!("pushz {cap}"));
+            lines.push("flush".into());
+        }
+        lines.push(if rng.chance(3, 4) { "wakex".into() } else { "wake".into() });
+        for _ in 0..(3 + rng.below(3)) {
+            lines.push("poll0".into());
+        }
+        for _ in 0..(2 + rng.below(2)) {
+            lines.push("pollw 2000".into());
+            if rng.chance(1, 2) {
+                lines.push("poll0".into());
+            }
+        }
+        cases.push(Case { name: format!("cqfull-{i}"), lines });
     }
     let n_det = if thorough { 20_000 } else { 1_500 };
     for i in 0..n_det {
